@@ -263,22 +263,27 @@ def classify_sanitizer(text):
     return key, "%s at %s (%s)" % (kind, fn, loc)
 
 
-def run_cmd(cmd, cwd=None, env=None, timeout=120, stdin=None):
-    """run with watchdog -> dict(rc, out, err, hang, sig, wall)"""
+def run_cmd(cmd, cwd=None, env=None, timeout=120, stdin=None, stdout_to=None):
+    """run with watchdog -> dict(rc, out, err, hang, sig, wall).  stdout_to: path the standard output is opened on instead of a pipe
+    (e.g. /dev/full, where every write fails with ENOSPC); 'out' is then empty."""
     t0 = time.time()
     e = dict(os.environ)
     if env:
         e.update(env)
+    so = open(stdout_to, "wb") if stdout_to else None
     try:
-        p = subprocess.run(cmd, cwd=cwd, env=e, stdout=subprocess.PIPE, stderr=subprocess.PIPE,
+        p = subprocess.run(cmd, cwd=cwd, env=e, stdout=so if so else subprocess.PIPE, stderr=subprocess.PIPE,
                            timeout=timeout, stdin=subprocess.DEVNULL if stdin is None else stdin)
         rc = p.returncode
-        return dict(rc=rc, out=p.stdout.decode(errors="replace"), err=p.stderr.decode(errors="replace"),
+        return dict(rc=rc, out=(p.stdout or b"").decode(errors="replace"), err=p.stderr.decode(errors="replace"),
                     hang=False, sig=-rc if rc < 0 else 0, wall=time.time() - t0)
     except subprocess.TimeoutExpired as ex:
         return dict(rc=None, out=(ex.stdout or b"").decode(errors="replace"),
                     err=(ex.stderr or b"").decode(errors="replace"), hang=True, sig=0,
                     wall=time.time() - t0)
+    finally:
+        if so:
+            so.close()
 
 
 def pmap(fn, items, jobs=None):
